@@ -167,6 +167,14 @@ func checkC02(c *Ctx) {
 			}
 		}
 	}, func(o *coreObl) (string, bool) { return "R02.5", o.Rule == "R09.2" || o.Rule == "R09.3" })
+	// the key lock a waiter finds is this key's: the table is keyed by the full key, not by a digest of it (C01 R01.2/R01.5) —
+	// otherwise a waiter returns the value built for a colliding key
+	for _, sib := range siblings {
+		if fo := c.failover(sib); fo.Err == nil {
+			fo := fo
+			c.borrowKinds("C01", func() { c.c01Sibling(fo) }, "R02.3", sib+".Get:key-lock-table", []string{"R01.2", "R01.5"}, "insert-key", "lookup-key", "release-key")
+		}
+	}
 }
 
 // c02NoRecover: a recover() in the frontend turns a panicking builder into a return of whatever the results hold — for
